@@ -120,7 +120,7 @@ def run_shard(shard, ctx):
                 cid = [name, op, list(kx), list(ky)]
                 if not ctx.want(cid):
                     continue
-                st, r = ops.check_generic(ctx, alg, iso, cfg, op, (kx, ky), cid)
+                st, r = ops.check_generic(ctx, alg, iso, cfg, op, (kx, ky), cid, total=True)
                 if st in ('timeout', 'raised'):
                     continue
                 if op != 'gp':
